@@ -1433,6 +1433,8 @@ _NP_FUNCS = {
     "ravel": lambda a: XArray.from_nested(a).ravel(),
     "isscalar": lambda x: _is_num(x) or isinstance(x, (bool, str)),
     "where": lambda *a: _np_where(*a),
+    "array_str": lambda a, **k: str(a),
+    "array2string": lambda a, **k: str(a),
     "all": lambda a, **k: _np_allany(a, all, **k),
     "any": lambda a, **k: _np_allany(a, any, **k),
     "setdiff1d": lambda *a, **k: _np_setdiff1d(*a, **k),
